@@ -49,4 +49,74 @@ def vals (r : Rng) : List (Option Nat) := r.ids.map (fun id => r.cont[id]?)
 /-- all ids address the container (the documented precondition of the class) -/
 def Valid (r : Rng) : Prop := ∀ id ∈ r.ids, id < r.cont.length
 
+/-! ### `IndexMap::sort()` — `std::sort(ids_, [](l, r){ return items_[l] < items_[r]; })`
+
+`std::sort` leaves the order of ids with equal items unspecified; the model is the stable insertion sort.  What every
+conforming outcome shares (and what the driver compares) is the *sequence of item values*. -/
+
+def item (cont : List Nat) (id : Nat) : Nat := cont.getD id 0
+
+def insertBy (cont : List Nat) (x : Nat) : List Nat → List Nat
+  | [] => [x]
+  | y :: ys => if item cont x < item cont y then x :: y :: ys else y :: insertBy cont x ys
+
+def sortIds (cont ids : List Nat) : List Nat := ids.foldr (insertBy cont) []
+
+def nondecr : List Nat → Bool
+  | [] => true
+  | [_] => true
+  | a :: b :: r => decide (a ≤ b) && nondecr (b :: r)
+
+/-- same ids with the same multiplicities (compared in canonical order) -/
+def insNat (x : Nat) : List Nat → List Nat
+  | [] => [x]
+  | y :: ys => if x ≤ y then x :: y :: ys else y :: insNat x ys
+def canon (l : List Nat) : List Nat := l.foldr insNat []
+def sameBag (a b : List Nat) : Bool := canon a == canon b
+
+/-- the clause evaluated on the implementation's id order after `sort()`: a rearrangement of the ids, items non-decreasing -/
+def sortOK (cont ids ids' : List Nat) : Bool := sameBag ids' ids && nondecr (ids'.map (item cont))
+
+/-! ### `IndexSkipMap` / `IndexSkipMapIterator` — iterate the container *without* the listed ids
+
+Iterator state: `currentId_` (a container index) and `currentSkipId_` (a position in the id list).
+`skip()`: `while (cur < items.size() && sk < ids.size() && cur == ids[sk]) { ++cur; ++sk; }`;
+constructor = `skip()`, `operator++` = `++cur; skip()`, `operator==` compares `cur` only, `end()` has `cur = items.size()`. -/
+
+structure SkipIt where
+  cur : Nat
+  sk : Nat
+deriving Repr, BEq
+
+/-- `skip()` (fuel: every iteration needs `cur < n` and increments `cur`) -/
+def skipLoop (ids : List Nat) (n : Nat) : Nat → SkipIt → SkipIt
+  | 0, s => s
+  | fuel + 1, s =>
+    if s.cur < n && s.sk < ids.length && s.cur == ids.getD s.sk 0 then skipLoop ids n fuel ⟨s.cur + 1, s.sk + 1⟩ else s
+
+def skipBegin (ids : List Nat) (n : Nat) : SkipIt := skipLoop ids n (n + 1) ⟨0, 0⟩
+def skipNext (ids : List Nat) (n : Nat) (s : SkipIt) : SkipIt := skipLoop ids n (n + 1) ⟨s.cur + 1, s.sk⟩
+
+/-- `for (it = begin(); it != end(); ++it) it.toContainerId()` as written -/
+def skipWalkGo (ids : List Nat) (n : Nat) : Nat → SkipIt → List Nat
+  | 0, _ => []
+  | fuel + 1, s => if s.cur == n then [] else s.cur :: skipWalkGo ids n fuel (skipNext ids n s)
+
+def skipWalkIds (r : Rng) : List Nat := skipWalkGo r.ids r.cont.length (r.cont.length + 1) (skipBegin r.ids r.cont.length)
+
+/-- the same walk with the two loops merged into one recursion over the remaining container positions:
+    at position `cur` with the unread skip ids `rest`, either `cur` is `rest`'s head (skipped, head consumed) or it is visited. -/
+def skipVisit : Nat → Nat → List Nat → List Nat
+  | 0, _, _ => []
+  | rem + 1, cur, [] => cur :: skipVisit rem (cur + 1) []
+  | rem + 1, cur, x :: xs => if cur = x then skipVisit rem (cur + 1) xs else cur :: skipVisit rem (cur + 1) (x :: xs)
+
+def skipVisitIds (r : Rng) : List Nat := skipVisit r.cont.length 0 r.ids
+/-- the items the walk yields -/
+def skipVals (r : Rng) : List (Option Nat) := (skipVisitIds r).map (fun i => r.cont[i]?)
+/-- what the class is documented to iterate: the container positions that are not listed -/
+def skipSpec (r : Rng) : List Nat := (List.range r.cont.length).filter (fun i => !r.ids.contains i)
+/-- `IndexSkipMap::size()` as written: the number of *listed* ids -/
+def skipSizeAsWritten (r : Rng) : Nat := r.ids.length
+
 end AITB.IndexMap
